@@ -19,6 +19,8 @@ Definition relname_eqb (a b:relname) : bool :=
   | RTable, RTable | RField, RField | REnum, REnum | RAlias, RAlias | RView, RView => true
   | RTag o, RTag o' => owner_eqb o o'
   | RAnno o, RAnno o' => owner_eqb o o'
+  | RSrc o, RSrc o' => owner_eqb o o'
+  | RSrcAnno o, RSrcAnno o' => owner_eqb o o'
   | _, _ => false
   end.
 
@@ -33,37 +35,104 @@ Fixpoint ty_eqb (a b:ty) : bool :=
   | _, _ => false
   end.
 
+Fixpoint rval_eqb (a b:rval) : bool :=
+  match a, b with
+  | RVEmpty, RVEmpty => true
+  | RVStr x, RVStr y => Pos.eqb x y
+  | RVNum m e, RVNum m' e' => Z.eqb m m' && Z.eqb e e'
+  | RVArr l1, RVArr l2 =>
+      (fix go (l1 l2:list rval) : bool :=
+         match l1, l2 with
+         | [], [] => true
+         | x :: l1', y :: l2' => rval_eqb x y && go l1' l2'
+         | _, _ => false
+         end) l1 l2
+  | _, _ => false
+  end.
+Fixpoint sty_eqb (a b:sty) : bool :=
+  match a, b with
+  | SPrim p, SPrim q => str_eqb p q
+  | SRef a1 p1, SRef a2 p2 => list_eqb str_eqb a1 a2 && list_eqb str_eqb p1 p2
+  | SSet x, SSet y => sty_eqb x y
+  | SSeq x, SSeq y => sty_eqb x y
+  | _, _ => false
+  end.
+Definition src_eqb (a b:srcctx) : bool := Pos.eqb (sc_file a) (sc_file b) && list_eqb N.eqb (sc_pos a) (sc_pos b).
+Definition xinfo_eqb (a b:xinfo) : bool :=
+  match a, b with
+  | XNone, XNone => true
+  | XVal v, XVal w => rval_eqb v w
+  | XRet s1 t1 m1 n1, XRet s2 t2 m2 n2 =>
+      str_eqb s1 s2 &&
+      match t1, t2 with Some x, Some y => sty_eqb x y | None, None => true | _, _ => false end &&
+      list_eqb str_eqb m1 m2 &&
+      list_eqb (fun x y : str * nval => str_eqb (fst x) (fst y) && nval_eqb (snd x) (snd y)) n1 n2
+  | XSrc f1 l1, XSrc f2 l2 => src_eqb f1 f2 && list_eqb src_eqb l1 l2
+  | XSrcs l1, XSrcs l2 => list_eqb src_eqb l1 l2
+  | _, _ => false
+  end.
+
 Definition row_eqb (a b:row) : bool :=
   relname_eqb (r_rel a) (r_rel b) && list_eqb Pos.eqb (r_app a) (r_app b) &&
   list_eqb Pos.eqb (r_names a) (r_names b) && list_eqb N.eqb (r_path a) (r_path b) &&
-  list_eqb Z.eqb (r_nums a) (r_nums b) && ty_eqb (r_ty a) (r_ty b) && list_eqb Pos.eqb (r_app2 a) (r_app2 b).
+  list_eqb Z.eqb (r_nums a) (r_nums b) && ty_eqb (r_ty a) (r_ty b) && list_eqb Pos.eqb (r_app2 a) (r_app2 b) &&
+  xinfo_eqb (r_x a) (r_x b).
 
 Definition all_owners : list owner := [OApp; OMixin; OEp; OParam; OStmt; OEvent; OType; OField; OView].
 Definition all_rels : list relname :=
   [RApp; RMixin; REp; REvent; RParam; RStmt; RType; RTable; RField; REnum; RAlias; RView]
-  ++ map RTag all_owners ++ map RAnno all_owners.
+  ++ map RTag all_owners ++ map RAnno all_owners ++ map RSrc all_owners ++ map RSrcAnno all_owners.
 
 (* the rows of one relation, in the order in which they were appended to the schema's slice *)
 Definition rel_rows (R:relname) (rs:list row) : list row := filter (fun r => relname_eqb (r_rel r) R) rs.
 
-(* a case whose module holds a return payload the harness cannot read itself compares return rows without status/type *)
+(* a case whose module holds a return payload outside the modelled fragment (a backslash, "{") hands every payload
+   to the model as LRetOpaque and compares return rows without their contents *)
 Definition mask_ret (r:row) : row :=
   match r_rel r, r_nums r with
   | RStmt, [8%Z] => mk RStmt (r_app r) [hd n_empty (r_names r); n_empty] (r_path r) [8%Z] TyNil
   | _, _ => r
   end.
 
+(* where the code hands the modifiers over in the order of arr.ai's set export (different from process to process)
+   the observed modifiers are compared as a set: sorted here, as the model has them *)
+Definition sort_mods (r:row) : row :=
+  match r_x r with
+  | XRet st t ms nv =>
+      {| r_rel := r_rel r; r_app := r_app r; r_names := r_names r; r_path := r_path r; r_nums := r_nums r; r_ty := r_ty r;
+         r_app2 := r_app2 r; r_x := XRet st t (fold_right set_insert [] ms) nv |}
+  | _ => r
+  end.
+
 (* one case = module projection, what relmod.Normalize returned (None = refused; Some rows = every relation's slice
    in slice order, one relation after the other), and whether return-row contents are comparable *)
-Definition c17_case := (module * option (list row) * bool)%type.
+Inductive observed := ORows (rs:list row) | ORefused | OCrashed.
+Definition c17_case := (module * observed * bool)%type.
 
-Definition c17_ok (cm am:idx_mode) (c:c17_case) : bool :=
+Definition c17_ok (cm am:idx_mode) (g:grammar) (c:c17_case) : bool :=
   match c with (m, obs, retc) =>
-    match normalize cm am m, obs with
-    | Refused, None => true
-    | Rows rs, Some os =>
+    match normalize cm am g m, obs with
+    | Refused, ORefused => true
+    | Crashed, OCrashed => true
+    | Rows rs, ORows os =>
         let f := if retc then (fun l => l) else map mask_ret in
-        forallb (fun R => list_eqb row_eqb (f (rel_rows R rs)) (f (rel_rows R os))) all_rels
+        let h := match g_mods g with ModsSorted => (fun l => l) | _ => map sort_mods end in
+        forallb (fun R => list_eqb row_eqb (f (rel_rows R rs)) (h (f (rel_rows R os)))) all_rels
+    | _, _ => false
+    end
+  end.
+
+(* one payload alone: what parseReturnPayload answered for this text in application `app` *)
+Inductive pobs := PObsErr | PObsCrash | PObsOk (x:xinfo).
+Definition c17_pay_case := (list str * str * pobs)%type.
+Definition c17_pay_ok (g:grammar) (c:c17_pay_case) : bool :=
+  match c with (sa, text, obs) =>
+    match parse_payload g text, obs with
+    | PErr, PObsErr => true
+    | PCrash, PObsCrash => true
+    | POk _, PObsOk x =>
+        let h := match g_mods g with ModsSorted => (fun r => r) | _ => sort_mods end in
+        xinfo_eqb (ret_info g sa text) (r_x (h (mkx RStmt [] [] [] [] x)))
     | _, _ => false
     end
   end.
